@@ -5,7 +5,7 @@ Local Open Scope Z_scope.
 
 (* ---------- interface: the decision regenerated from save_util.py ---------- *)
 (* proved by cases on the two tests, so equivalent boolean rewritings of the source still check *)
-Lemma frag_roundtrippable v : roundtrippable v = sl_roundtrippable (dumps_ok v) (sl_same_scalar (same_vt v (jnorm v))).
+Lemma frag_roundtrippable v : roundtrippable v = sl_roundtrippable (dumps_ok v) (sl_same_scalar (same_vt v (jnorm v)) (negb (same_vt v (jnorm v)))).
 Proof.
   unfold roundtrippable, sl_roundtrippable, sl_same_scalar.
   destruct (dumps_ok v); destruct (same_vt v (jnorm v)); reflexivity.
@@ -13,6 +13,16 @@ Qed.
 
 Lemma frag_keep_plain v : is_plain (store_item v) = sl_keep_plain (dumps_ok v) (roundtrippable v).
 Proof. unfold store_item, sl_keep_plain. destruct (dumps_ok v); destruct (roundtrippable v); reflexivity. Qed.
+
+(* the scalar comparison, the type test and the plain-str key test of _same_value_and_type, as regenerated *)
+Lemma frag_same_tests eq ty isstr :
+  sl_same_scalar eq (negb eq) = eq /\ sl_type_differs ty (negb ty) = negb ty /\ sl_key_plain isstr (negb isstr) = isstr.
+Proof. destruct eq, ty, isstr; repeat split. Qed.
+
+(* a key is accepted by same_vt exactly when it is identical; after jnorm every key is a plain str, so a dictionary
+   is kept as JSON only if all its keys are plain str (KSub, a str subclass, is not) *)
+Lemma key_kept_iff_plain_str k : key_eqb k (KS (key_text k)) = sl_key_plain (key_is_str k) (negb (key_is_str k)).
+Proof. destruct k; cbn; try reflexivity. apply String.eqb_refl. Qed.
 
 (* ---------- induction principle for the nested type ---------- *)
 Section JvInd.
@@ -76,6 +86,7 @@ Proof.
   - apply Z.eqb_eq in H. now subst.
   - apply Bool.eqb_prop in H. now subst.
   - apply Z.eqb_eq in H. now subst.
+  - apply andb_true_iff in H as [H1 H2]. apply Z.eqb_eq in H1. apply String.eqb_eq in H2. now subst.
 Qed.
 
 (* ---------- _same_value_and_type accepts only identical trees ---------- *)
